@@ -69,7 +69,7 @@ structure Ctl where
   /-- oracle: GetClusterSnapshot returns nil -/
   noCluster : Bool := false
   /-- the answer CanCreate() gives (computed from the counter at the start of the label) -/
-  admit : Bool := true
+  grant : Bool := true
   hostNum : Int := 0
   /-- oracle: what the next host tries meet -/
   tries : List Try := []
@@ -123,7 +123,7 @@ def connectUp (deliver : Event → Ctl → Ctl) (c : Ctl) : Ctl × Bool :=
 /-- the operations of the regenerated handlers; `dUp` / `dDown` deliver an event to the filter's callbacks -/
 def mkOps (dUp dDown : Event → Ctl → Ctl) : Ops Ctl where
   snapshotNil c := c.noCluster
-  canCreate c := (c.act .check, c.admit)
+  canCreate c := (c.act .check, c.grant)
   hostNum c := c.hostNum
   connNil c := c.cur == .none
   upstreamConnSet c := c.s.upSet
@@ -181,12 +181,12 @@ inductive Ev where
 /-- more than `defaultConnectRetryTimes` hosts behave like `defaultConnectRetryTimes + 1` (theorem `hostNum_clamp`) -/
 def hostAbs (n : Nat) : Int := Int.ofNat (min n 4)
 
-/-- one label on one session: the new session state and the log.  `admit` = what CanCreate() answers now. -/
-def sstep (admit : Bool) (s : Sess) : Ev → Ctl
+/-- one label on one session: the new session state and the log.  `grant` = what CanCreate() answers now. -/
+def sstep (grant : Bool) (s : Sess) : Ev → Ctl
   | .accept nc hn t0 t1 t2 =>
     if s.accepted then { s := s }
     else
-      let c : Ctl := { s := { s with accepted := true }, noCluster := nc, admit := admit, hostNum := hostAbs hn, tries := [t0, t1, t2] }
+      let c : Ctl := { s := { s with accepted := true }, noCluster := nc, grant := grant, hostNum := hostAbs hn, tries := [t0, t1, t2] }
       let c := c.act .downNew
       (initializeUpstreamConnection (ops depth) c).1
   | .up e =>
